@@ -37,6 +37,31 @@ def focused_search(res, pid, binary, cases, meta, diffs, oracle, r):
                 res.violation("%s on %s/%s: %s (found by the focused search after the correspondence broke: %s)" % (pid, v, wt, why, " ".join(diffs[0][2:])[:200]),
                               {"kind": "graph", "n": c[0], "edges": c[1], "scale": c[2], "variant": v, "wt": wt, "why": why})
                 return True
+    # second stage: fresh mid-size graphs with wide weights (unique optima) through the disagreeing variants, every run
+    # under its own heap layout (the signed searches enumerate std::set<edge_descriptor> in address order)
+    kinds = []
+    for cid in ids:
+        if meta[cid] not in kinds: kinds.append(meta[cid])
+    for rnd in range(10 if kinds else 0):
+        batch, bmeta = {}, {}
+        for t in range(200):
+            n = r.randint(6, 13)
+            E = [(a, b) for a in range(n) for b in range(a + 1, n) if r.random() < r.choice([.25, .4, .55])]
+            r.shuffle(E)
+            WE = [((a, b, r.randint(1, 30)) if r.random() < .5 else (b, a, r.randint(1, 30))) for (a, b) in E]
+            batch["g%d" % t] = (n, WE, 0, "focused-random"); bmeta["g%d" % t] = kinds[t % len(kinds)]
+        text = "".join(render_graph(j, "exact", bmeta[j][1], 0, [bmeta[j][0], "0", "heap=%d" % (r.getrandbits(27) + 1)], c[0], c[1]) for j, c in batch.items())
+        rc, out, err = run_harness(binary, text, timeout=1200)
+        blocks = parse_blocks(out)
+        for j, c in batch.items():
+            tried += 1
+            why = oracle(c, blocks.get(j, {"lines": []}), {})
+            if why:
+                v, wt = bmeta[j]
+                res.coverage["focused_search_runs"] = tried
+                res.violation("%s on %s/%s: %s (found by the focused search after the correspondence broke: %s)" % (pid, v, wt, why, " ".join(diffs[0][2:])[:200]),
+                              {"kind": "graph", "n": c[0], "edges": c[1], "scale": c[2], "variant": v, "wt": wt, "why": why})
+                return True
     res.coverage["focused_search_runs"] = tried
     return False
 
